@@ -380,6 +380,9 @@ func (w *World) trSpecCall(e *SExpr, env *SpecEnv) *Val {
 		if x.T.S.IsSlice {
 			return tv(tField(x.T, "len"), types.Typ[types.Int])
 		}
+		if x.T.S.Kind == KUnint && x.T.S.Name == "Str" {
+			return tv(mk("strlen", SInt, x.T), types.Typ[types.Int])
+		}
 		panic("spec: len of non-slice")
 	case "min", "max":
 		a := w.trSpec(args[0], env)
